@@ -157,6 +157,26 @@ def build_chain(spec):
         y = tnp.concatenate([x], axis=0)
         z = tnp.concatenate([y, x], axis=0)
         return tracer.Graph([x], z, name="op"), [shp]
+    if kind == "wrapper":
+        # graphs that consist of ONE call: on their inputs in order (may be inlined), swapped, repeated or on a subset
+        _, shp, variant = spec
+        py = tracer.signature.python
+        a, b = T(None, shape=shp), T(None, shape=shp)
+        if variant == "in-order":
+            return tracer.Graph([a, b], tnp.subtract(a, b), name="op"), [shp, shp]
+        if variant == "swapped":
+            return tracer.Graph([a, b], tnp.subtract(b, a), name="op"), [shp, shp]
+        if variant == "repeated":
+            return tracer.Graph([a, b], tnp.subtract(a, a), name="op"), [shp, shp]
+        if variant == "second-only":
+            return tracer.Graph([a, b], tnp.negative(b), name="op"), [shp, shp]
+        if variant in ("nested-swapped", "nested-in-order", "nested-repeated"):
+            p_, q_ = T(None, shape=shp), T(None, shape=shp)
+            body = {"nested-swapped": lambda p, q: tnp.subtract(q, p), "nested-in-order": lambda p, q: tnp.subtract(p, q), "nested-repeated": lambda p, q: tnp.subtract(q, q)}[variant]
+            g = py.function(body, args=[p_, q_])
+            r = tracer.cast(py.call(g, [a, b]), lambda origin: T(origin, shape=shp))
+            return tracer.Graph([a, b], (r, tnp.negative(r)), name="op"), [shp, shp]
+        raise KeyError(variant)
     if kind == "mixed":
         _, shp, seed = spec
         rng = random.Random(seed)
@@ -240,7 +260,7 @@ print("measures per pass:", ms, "terminated:", terminated)
 f1, c1 = tracer.compiler.python.compile(graph, return_code=True)
 f2, c2 = tracer.compiler.python.compile(after, return_code=True)
 print("--- before ---"); print(c1); print("--- after ---"); print(c2)
-args = [np.arange(int(np.prod(s)), dtype=np.int64).reshape(s) * 3 + 1 for s in shapes]
+args = [np.arange(int(np.prod(s)), dtype=np.int64).reshape(s) * (3 + 2 * i) + 1 + 7 * i for i, s in enumerate(shapes)]
 def run(f):
     try:
         r = f(*[a.copy() for a in args])
@@ -354,6 +374,9 @@ def chain_specs(tier, seed):
     for shp in [(2,), (2, 3), (1, 2), (2, 2, 2)]:
         specs.append(("broadcast", shp))
         specs.append(("concat1", shp))
+    for shp in [(2,), (2, 2), (3, 3), (2, 3)]:
+        for variant in ("in-order", "swapped", "repeated", "second-only", "nested-swapped", "nested-in-order", "nested-repeated"):
+            specs.append(("wrapper", shp, variant))
     for i in range(300 if tier == "quick" else 4000):
         specs.append(("mixed", rng.choice([(2, 3), (2, 2), (4,), (2, 1, 3), (2, 2, 2)]), seed * 7919 + i))
     return specs
